@@ -9,7 +9,7 @@ from c42 import C42, mcinfo_of
 from rng import Rng
 from s4ucheck import S4UCheck
 
-SOURCES = ['c04', 'c05', 'c06', 'c07', 'c08', 'c08', 'c11w']
+SOURCES = ['c04', 'c05', 'c06', 'c06', 'c07', 'c08', 'c08', 'c11w']
 COMM_ID = re.compile(r'comm_id:_?\d+|comm=\d+|comm_id=\d+')
 # the observer of a wait/test prints the mailbox the communication is still queued in: '-' with an id that depends on
 # which side arrived first once the communication is matched (not part of the kernel state)
@@ -84,6 +84,13 @@ class C39(S4UCheck):
         else:
             plan = importlib.import_module(src).CHECK.gen(seed, tier)
         plan['source'] = src
+        if src == 'c06' and r.chance(0.6):
+            # every condition on one mutex (not_full / not_empty): waits on different conditions then compete for it
+            for a in plan['actors']:
+                for op in a['ops']:
+                    for i, x in enumerate(op):
+                        if isinstance(x, str) and x.startswith('m') and x[1:].isdigit():
+                            op[i] = 'm0'
         for a in plan['actors']:
             # Mailbox::set_receiver is no transition of the checker's model (outside of the programs of C38): executed in
             # the invisible tail of the previous transition, it would make that one depend on every send to the mailbox
